@@ -140,12 +140,12 @@ type key struct {
 
 // Ctx owns a hash-cons table. Not safe for concurrent use.
 type Ctx struct {
-	tab    map[key]*Term
-	next   int
-	True   *Term
-	False  *Term
-	NoSimp bool // disable bit-level rewrites (for self-test differential runs)
-	Vars   []*Term
+	tab     map[key]*Term
+	next    int
+	True    *Term
+	False   *Term
+	NoSimp  bool // disable bit-level rewrites (for self-test differential runs)
+	Vars    []*Term
 	binMemo map[[3]int]*Term
 	exMemo  map[[3]int]*Term
 }
